@@ -72,6 +72,14 @@ class PersistentHashWalkMapper(WalkMapper):
                 self.key_hash.update(name.encode("utf8"))
                 self.rec(child)
 
+    def map_multivector(self, expr):
+        # Equal multivectors may hold their coefficients in a different
+        # (insertion) order: walk them sorted by blade, and hash the blade.
+        if self.visit(expr):
+            for bits, coeff in sorted(expr.data.items()):
+                self.key_hash.update(repr(bits).encode("utf8"))
+                self.rec(coeff)
+
     def map_comparison(self, expr):
         if self.visit(expr):
             self.rec(expr.left)
